@@ -243,6 +243,7 @@ type hStmt struct {
 
 type hEnv struct {
 	A, B eckg.LocalPartySaveData
+	N    int // ordinal of the item in its history
 }
 
 type hSys struct {
@@ -277,7 +278,8 @@ var hSystems = map[string]*hSys{
 	"sch": {
 		name: "sch", tagged: true, curves: []string{"secp256k1", "ed25519"},
 		build: func(env *hEnv, cv *pcCurve, rng *rand.Rand, lib io.Reader) (hStmt, any, error) {
-			x := c10Witness([]string{"rand", "rand", "1", "max", "lz"}[rng.Intn(5)], cv.q(), rng)
+			// the extremes once per history each: two items with the witness 1 would be the same statement
+			x := c10Witness([]string{"rand", "1", "rand", "max", "rand", "lz", "rand", "rand"}[env.N%8], cv.q(), rng)
 			return hStmt{Pts: []*crypto.ECPoint{crypto.ScalarBaseMult(cv.Ec, x)}, Ec: cv.Ec}, x, nil
 		},
 		prove: func(sess []byte, st hStmt, wit any, lib io.Reader) (any, error) {
@@ -927,7 +929,7 @@ func c10HistRun(sc c10HistScenario, keys []eckg.LocalPartySaveData) (res c10Hist
 			var err error
 			var pan string
 			// every item has parameter sets of its own (the statements of one system differ in every component)
-			env := &hEnv{A: keys[(sc.I+len(items))%len(keys)], B: keys[(sc.J+2*len(items))%len(keys)]}
+			env := &hEnv{A: keys[(sc.I+len(items))%len(keys)], B: keys[(sc.J+2*len(items))%len(keys)], N: len(items) + int(sc.Seed&3)}
 			pan = pcCall(func() { it.st, it.wit, err = sys.build(env, cv, rng, lib) })
 			if pan != "" || err != nil {
 				res.Inconcl = fmt.Sprintf("step %d: could not build a true statement for %s: %v %s", n+1, sys.name, err, pan)
@@ -1132,7 +1134,7 @@ func c10HandleRun(sc c10HistScenario, keys []eckg.LocalPartySaveData, res *c10Hi
 		return
 	}
 	cv := c10Curve(row.Curve)
-	env := &hEnv{A: keys[sc.I], B: keys[sc.J]}
+	env := &hEnv{A: keys[sc.I], B: keys[sc.J], N: int(sc.Seed & 7)}
 	rng := rand.New(rand.NewSource(sc.Seed))
 	lib := pump.NewDRBG(sc.Seed ^ 0xc10b)
 	sess := hSessBytes([]int{1, 2}, 16, false)
